@@ -37,7 +37,8 @@ _add("C09", "Pfdl.Net.C09.no_lookup_error_partial", "Pfdl.Net.C09.accepted_no_lo
      "Pfdl.Net.C09.construction_raises_nothing_all", "Pfdl.Net.C09.construction_callbacks_resolve", "Pfdl.Net.akeeps",
      "Pfdl.Net.C09.step_safe_all", "Pfdl.Net.C09.history_safe_all", "Pfdl.Net.C09.no_lookup_error",
      "Pfdl.Net.C09.never_index_or_key_error", "Pfdl.Net.C09.accepted_no_lookup_error",
-     "Pfdl.Props.C09.accepted_condition_logic_ok", "Pfdl.Props.C09.accepted_while_logic_ok")
+     "Pfdl.Props.C09.accepted_condition_logic_ok", "Pfdl.Props.C09.accepted_while_logic_ok",
+     "Pfdl.Props.C09.accepted_condition_operands_ok", "Pfdl.Props.C09.accepted_while_operands_ok")
 # C14 / C08 at the net layer, for every program: the awaited completions are pairwise different
 _add("C14", "Pfdl.Net.C14.awaited_completions_distinct", "Pfdl.Net.C14.delivered_not_awaited", "Pfdl.Net.ikeeps")
 _add("C08", "Pfdl.Net.C14.delivered_not_awaited", "Pfdl.Net.C14.awaited_completions_distinct")
@@ -75,7 +76,8 @@ _add("C10", "Pfdl.Check.checkStmt_descent", "Pfdl.Check.validate_of_nested_stmt"
      "Pfdl.Props.C10.unknown_variable_as_service_input", "Pfdl.Props.C10.unknown_variable_as_call_input", "Pfdl.Props.C10.call_arity",
      "Pfdl.Props.C10.no_production_task", "Pfdl.Props.C10.undeclared_task_output", "Pfdl.Props.C10.unknown_type_in_struct",
      "Pfdl.Props.C10.recursion_direct", "Pfdl.Check.checkExpr_logicOk", "Pfdl.Props.C10.logic_operand_in_while_guard",
-     "Pfdl.Props.C10.logic_operand_in_condition")
+     "Pfdl.Props.C10.logic_operand_in_condition", "Pfdl.Check.checkExpr_operandsOk",
+     "Pfdl.Props.C10.ill_typed_operand_in_while_guard", "Pfdl.Props.C10.ill_typed_operand_in_condition")
 _add("C16", "Pfdl.Props.C16.verdict_iff_no_output", "Pfdl.Props.C16.total_after_parsing", "Pfdl.Check.validate_total",
      "Pfdl.Check.access_typeable", "Pfdl.Check.checkExpr_total", "Pfdl.Props.C16.invalid_inert")
 _add("C19", "Pfdl.Props.C19.in_file", "Pfdl.Check.validate_lines", "Pfdl.Props.C19.within_statement", "Pfdl.Props.C19.call_fault_at_call",
